@@ -5,7 +5,8 @@
 #          VERIF_REPO=/path/to/repo bash translator/run.sh
 #
 # Builds translator/lockskel (a go/ast + go/types analyser without dependencies) into
-# .work/bin/lockskel and runs it on $REPO/storage/safeMap.go and $REPO/storage/genericStack.go.
+# .work/bin/lockskel and runs it on $REPO/storage/safeMap.go, $REPO/storage/genericStack.go (deep mode) and on
+# $REPO/storage/fifoMapCache.go, $REPO/workqueue/queue.go (field mode: several fields, several mutexes).
 # The result, coq/Gen/LockSkeleton_gen.v, defines [safemap_skeleton] and [gstack_skeleton]
 # (type [skeleton] of TC.Lib.Conc); the Coq side then decides [lockset_check] on them.
 #
@@ -30,4 +31,7 @@ export GOFLAGS=-mod=mod GOPROXY=off
 
 mkdir -p "$ROOT/.work/bin" "$ROOT/coq/Gen"
 (cd "$HERE/lockskel" && go build -o "$ROOT/.work/bin/lockskel" .)
-exec "$ROOT/.work/bin/lockskel" -repo "$REPO" -out "$ROOT/coq/Gen/LockSkeleton_gen.v"
+# deep mode: SafeMap.m / GenericStack.stack.entries (C07, C11)  ->  Gen/LockSkeleton_gen.v
+# field mode: FifoMapCache's fields (C08) -> Gen/CacheSkeleton_gen.v ; Queue.errorSubscribers (C14) -> Gen/WQSkeleton_gen.v
+# (separate files, so that C07/C11 do not depend on the skeletons of the cache and of the work queue)
+exec "$ROOT/.work/bin/lockskel" -repo "$REPO" -out "$ROOT/coq/Gen/LockSkeleton_gen.v" -outdir "$ROOT/coq/Gen"
